@@ -22,7 +22,7 @@ cd /verif
 echo "== checks on /repo with the patch applied"
 git -C /repo apply "$d/patch.diff" || { echo "PATCH DOES NOT APPLY TO /repo"; exit 2; }
 ev=$(mktemp -d /tmp/sv_ev_XXXX)
-for p in C01 C02 C03 C04 C05 C06 C07 C08 C09 C10 C11 C12 C13 C14 C15 C16 C17 C18 C19; do
+for p in C01 C02 C03 C04 C05 C06 C07 C08 C09 C10 C11 C12 C13 C14 C15 C16 C17 C18 C19 C20; do
   out=$(/verif/check $p --quiet --evidence-dir "$ev" 2>&1); rc=$?
   if [ $rc -ne 0 ]; then echo "   $p rc=$rc"; echo "$out" | grep -v KNOWN-FINDING | grep -v "^VIOLATION" | head -4 | cut -c1-300; fi
 done
